@@ -228,6 +228,11 @@ func runFunction(prog *Prog, name string, fn *ssa.Function, con *Contract) *Exec
 		f.regs[fv] = v
 		f.params[fv.Name()] = Binding{V: v, T: under(fv.Type()).(*types.Pointer).Elem(), Addr: true}
 	}
+	for _, g := range con.Ghosts {
+		sym := ex.w.st.fresh("ghost_"+g, bvSort(64))
+		f.params[g] = Binding{V: VInt{T: sym, W: 64}, T: types.Typ[types.Int]}
+		ex.inputs["ghost "+g] = sym
+	}
 	// axioms and requires
 	ec := ex.ectx(f, st)
 	ec.assume = true
@@ -484,12 +489,28 @@ func (ex *Exec) enterBlock(f *Frame, st *State, b, prev *ssa.BasicBlock) bool {
 			vals = append(vals, ex.val(f, st, phi.Edges[pi]))
 		}
 	}
+	// source names of phis: the DebugRef that follows them in the block
+	phiName := map[*ssa.Phi]string{}
+	for _, in := range b.Instrs {
+		if dr, ok := in.(*ssa.DebugRef); ok && !dr.IsAddr {
+			if ph, ok := dr.X.(*ssa.Phi); ok && ph.Block() == b {
+				if id, ok := dr.Expr.(*ast.Ident); ok {
+					if _, dup := phiName[ph]; !dup {
+						phiName[ph] = id.Name
+					}
+				}
+			}
+		}
+	}
 	ld := f.li.headers[b]
 	if ld == nil {
 		for i, phi := range phis {
 			f.regs[phi] = vals[i]
 			if phi.Comment != "" {
 				fs.names[phi.Comment] = Binding{V: vals[i], T: phi.Type()}
+			}
+			if n := phiName[phi]; n != "" {
+				fs.names[n] = Binding{V: vals[i], T: phi.Type()}
 			}
 		}
 		return true
@@ -504,6 +525,9 @@ func (ex *Exec) enterBlock(f *Frame, st *State, b, prev *ssa.BasicBlock) bool {
 			if phi.Comment != "" {
 				fs.names[phi.Comment] = Binding{V: vs[i], T: phi.Type()}
 			}
+			if n := phiName[phi]; n != "" {
+				fs.names[n] = Binding{V: vs[i], T: phi.Type()}
+			}
 		}
 	}
 	checkInv := func(kind string) {
@@ -517,15 +541,26 @@ func (ex *Exec) enterBlock(f *Frame, st *State, b, prev *ssa.BasicBlock) bool {
 			ex.oblige(f, st, "invariant", fmt.Sprintf("%s%s#inv-%s:loop%d#%d", ex.name, f.prefix, kind, ld.ord, k+1), t, b.Instrs[0].Pos(), c.Src)
 		}
 	}
+	autos := ex.autoInvariants(f, b, ld, phis)
+	checkAuto := func(kind string) {
+		for _, a := range autos {
+			t := a.term(f, st, ex)
+			if t != "" {
+				ex.oblige(f, st, "invariant", fmt.Sprintf("%s%s#autoinv-%s:loop%d#%s", ex.name, f.prefix, kind, ld.ord, a.name), t, b.Instrs[0].Pos(), a.desc)
+			}
+		}
+	}
 	if fs.cut[b] {
 		// back edge: invariant preserved
 		bindPhis(vals)
+		checkAuto("preserved")
 		checkInv("preserved")
 		ex.endPath()
 		return false
 	}
 	// first arrival
 	bindPhis(vals)
+	checkAuto("entry")
 	checkInv("entry")
 	fs.cut[b] = true
 	// havoc loop-carried registers
@@ -570,6 +605,11 @@ func (ex *Exec) enterBlock(f *Frame, st *State, b, prev *ssa.BasicBlock) bool {
 		}
 	}
 	// assume invariants
+	for _, a := range autos {
+		if t := a.term(f, st, ex); t != "" {
+			st.assume(t)
+		}
+	}
 	ec := ex.ectx(f, st)
 	ec.assume = true
 	for _, c := range invs {
@@ -577,6 +617,9 @@ func (ex *Exec) enterBlock(f *Frame, st *State, b, prev *ssa.BasicBlock) bool {
 		if err != nil {
 			ex.aborted = fmt.Sprintf("contract error (%s): %v", c.Line, err)
 			return false
+		}
+		if os.Getenv("GOVC_DEBUG") != "" {
+			fmt.Fprintf(os.Stderr, "assume inv %s => %s\n", c.Src, t)
 		}
 		st.assume(t)
 	}
@@ -591,13 +634,22 @@ func (ex *Exec) atReturn(f *Frame, st *State, ret *ssa.Return, res []Val) {
 	ec := ex.ectx(f, st)
 	// ensures speak about parameters (entry values) and results only
 	vars := map[string]Binding{}
+	for k, v := range st.fstate(f).names {
+		vars[k] = v
+	}
 	for k, v := range f.params {
 		vars[k] = v
 	}
 	bindResults(vars, f.fn.Signature, res)
 	ec.vars = vars
 	for k, c := range f.con.Ensures {
+		if c.Trusted {
+			continue
+		}
 		t, err := ec.formula(c.Src)
+		if err != nil && c.Optional && strings.Contains(err.Error(), "unknown identifier") {
+			continue // speaks about a local that does not exist on this path
+		}
 		if err != nil {
 			ex.aborted = fmt.Sprintf("contract error (%s): %v", c.Line, err)
 			return
@@ -616,14 +668,10 @@ func bindResults(vars map[string]Binding, sig *types.Signature, res []Val) {
 		b := Binding{V: res[i], T: rs.At(i).Type()}
 		vars[fmt.Sprintf("result%d", i)] = b
 		if n := rs.At(i).Name(); n != "" && n != "_" {
-			if _, clash := vars[n]; !clash {
-				vars[n] = b
-			}
+			vars[n] = b
 		}
 		if i == rs.Len()-1 && types.TypeString(rs.At(i).Type(), nil) == "error" {
-			if _, clash := vars["err"]; !clash {
-				vars["err"] = b
-			}
+			vars["err"] = b
 		}
 	}
 	if rs.Len() >= 1 && len(res) >= 1 {
@@ -669,7 +717,8 @@ func (ex *Exec) step(f *Frame, st *State, in ssa.Instruction) bool {
 				if pt, ok := under(x.X.Type()).(*types.Pointer); ok {
 					fs.names[id.Name] = Binding{V: v, T: pt.Elem(), Addr: true}
 				}
-			} else {
+			} else if old, ok := fs.names[id.Name]; !ok || !old.Addr {
+				// a variable living in memory keeps its address binding
 				fs.names[id.Name] = Binding{V: v, T: x.X.Type()}
 			}
 		}
@@ -678,6 +727,9 @@ func (ex *Exec) step(f *Frame, st *State, in ssa.Instruction) bool {
 		o := w.newObj(et, x.Comment)
 		st.mem[o] = w.toMem(st, w.zero(st, et), nil)
 		f.regs[x] = VPtr{Root: o, Nil: "false", Origin: OrigKnown}
+		if x.Comment != "" && !strings.Contains(x.Comment, " ") && !strings.Contains(x.Comment, ".") {
+			st.fstate(f).names[x.Comment] = Binding{V: f.regs[x], T: et, Addr: true}
+		}
 	case *ssa.BinOp:
 		f.regs[x] = ex.binop(f, st, x)
 	case *ssa.UnOp:
@@ -1254,6 +1306,9 @@ func (ex *Exec) typeAssert(f *Frame, st *State, x *ssa.TypeAssert) bool {
 	iv, _ := ex.val(f, st, x.X).(VIface)
 	var val Val
 	okT := ""
+	if iv.Concrete != nil && hasTypeParam(iv.Concrete, 0) {
+		iv.Concrete, iv.Val = nil, nil
+	}
 	if iv.Concrete != nil && !types.IsInterface(x.AssertedType) {
 		if types.Identical(iv.Concrete, x.AssertedType) {
 			val, okT = iv.Val, "true"
@@ -1278,7 +1333,7 @@ func (ex *Exec) typeAssert(f *Frame, st *State, x *ssa.TypeAssert) bool {
 		if types.IsInterface(x.AssertedType) {
 			val = VIface{U: iv.U, Concrete: iv.Concrete, Val: iv.Val}
 		} else {
-			val = w.freshReg(st, x.AssertedType, "ta", OrigMem)
+			val = w.freshReg(st, x.AssertedType, "ta", OrigCall)
 		}
 	}
 	if x.CommaOk {
@@ -1325,4 +1380,123 @@ func (ex *Exec) initGlobal(st *State, g *ssa.Global, o *Obj) {
 			}
 		}
 	}
+}
+
+// autoInv is an automatically proposed loop invariant for a counter phi. It is
+// an obligation like any written invariant (asserted on entry and on the back
+// edge), so proposing it is sound.
+type autoInv struct {
+	name, desc string
+	phi        *ssa.Phi
+	lower      *ssa.Const // phi >= lower
+	upper      ssa.Value  // phi < upper
+}
+
+func (a autoInv) term(f *Frame, st *State, ex *Exec) string {
+	p, ok := f.regs[a.phi].(VInt)
+	if !ok {
+		return ""
+	}
+	signed := isSigned(a.phi.Type())
+	if a.lower != nil {
+		c, ok := ex.constVal(st, a.lower).(VInt)
+		if !ok {
+			return ""
+		}
+		if signed {
+			return app("bvsge", p.T, c.T)
+		}
+		return app("bvuge", p.T, c.T)
+	}
+	u, ok := ex.val(f, st, a.upper).(VInt)
+	if !ok || u.W != p.W {
+		return ""
+	}
+	if signed {
+		return app("bvslt", p.T, u.T)
+	}
+	return app("bvult", p.T, u.T)
+}
+
+func (ex *Exec) autoInvariants(f *Frame, b *ssa.BasicBlock, ld *loopDesc, phis []*ssa.Phi) []autoInv {
+	var out []autoInv
+	for pi, phi := range phis {
+		if _, ok := scalarWidth(phi.Type()); !ok || len(phi.Edges) < 2 {
+			continue
+		}
+		var init *ssa.Const
+		var step *ssa.BinOp
+		bad := false
+		for ei, e := range phi.Edges {
+			pred := b.Preds[ei]
+			if ld.blocks[pred] {
+				bo, ok := e.(*ssa.BinOp)
+				if !ok || bo.Op != token.ADD || bo.X != ssa.Value(phi) || (step != nil && step != bo) {
+					bad = true
+					break
+				}
+				c, ok := bo.Y.(*ssa.Const)
+				if !ok || c.Value == nil || constant.Sign(c.Value) <= 0 {
+					bad = true
+					break
+				}
+				step = bo
+			} else if c, ok := e.(*ssa.Const); ok && c.Value != nil && (init == nil || init == c) {
+				init = c
+			} else {
+				bad = true
+				break
+			}
+		}
+		if bad || init == nil || step == nil {
+			continue
+		}
+		out = append(out, autoInv{name: fmt.Sprintf("phi%d-lower", pi), desc: "counter never below its initial value", phi: phi, lower: init})
+		// upper bound from the comparison guarding the back edge: step < N
+		if refs := step.Referrers(); refs != nil {
+			for _, r := range *refs {
+				cmp, ok := r.(*ssa.BinOp)
+				if !ok || cmp.Op != token.LSS || cmp.X != ssa.Value(step) || !ld.blocks[cmp.Block()] {
+					continue
+				}
+				n := cmp.Y
+				// N must be defined outside the loop
+				if in, ok := n.(ssa.Instruction); ok && ld.blocks[in.Block()] {
+					continue
+				}
+				// the comparison must decide an If in its block
+				if iff, ok := cmp.Block().Instrs[len(cmp.Block().Instrs)-1].(*ssa.If); ok && iff.Cond == ssa.Value(cmp) {
+					out = append(out, autoInv{name: fmt.Sprintf("phi%d-upper", pi), desc: "counter below the loop bound", phi: phi, upper: n})
+				}
+			}
+		}
+	}
+	return out
+}
+
+func hasTypeParam(t types.Type, depth int) bool {
+	if depth > 6 {
+		return false
+	}
+	switch x := types.Unalias(t).(type) {
+	case *types.TypeParam:
+		return true
+	case *types.Pointer:
+		return hasTypeParam(x.Elem(), depth+1)
+	case *types.Slice:
+		return hasTypeParam(x.Elem(), depth+1)
+	case *types.Array:
+		return hasTypeParam(x.Elem(), depth+1)
+	case *types.Map:
+		return hasTypeParam(x.Key(), depth+1) || hasTypeParam(x.Elem(), depth+1)
+	case *types.Named:
+		if ta := x.TypeArgs(); ta != nil {
+			for i := 0; i < ta.Len(); i++ {
+				if hasTypeParam(ta.At(i), depth+1) {
+					return true
+				}
+			}
+		}
+	}
+	return false
 }
